@@ -27,6 +27,10 @@ def model(name, trusted=None):
     return deco
 
 
+# library constants (a value may be None, which `lookup` could not express)
+CONSTS = {'numpy.newaxis': None}
+
+
 def lookup(dotted):
     if dotted.startswith('np.'):
         dotted = 'numpy.' + dotted[3:]
